@@ -1,5 +1,6 @@
 import CpProofs.C03Body
 import CpProofs.C03Query
+import CpProofs.C03Utf16
 /-!
   C03 — query-string and form parameters reach the handler exactly as sent.
 
@@ -14,7 +15,8 @@ import CpProofs.C03Query
    * every mix of `&` and `;` separators, with any number of empty segments (`a=1&&;b=2`, leading
      and trailing separators), and a blank value written with or without its `=`;
    * every charset codec with a round-trip law (`Codec`; instances UTF-8 from core Lean's verified
-     codec and Latin-1 on code points ≤ 255), any position of that charset in `attempt_charsets`
+     codec, Latin-1 on code points ≤ 255, US-ASCII on ≤ 127, and for bodies UTF-16-LE and UTF-16 with
+     byte-order mark), any position of that charset in `attempt_charsets`
      as long as the earlier attempts fail;
    * every split of the pairs between query string and body.
 
@@ -53,6 +55,27 @@ def latin1Ascii : AsciiCodec where
   toCodec := latin1Codec
   enc_nil := rfl
   enc_append := fun a b => by simp [latin1Codec, latin1Enc]
+  enc_ascii := fun c _ => rfl
+
+theorem ascii_rt (s : Text) (h : ∀ c ∈ s, c.toNat < 128) : asciiDec (latin1Enc s) = some s := by
+  unfold asciiDec
+  have hall : (latin1Enc s).all (· < 0x80) = true := by
+    simp only [latin1Enc, List.all_map, List.all_eq_true]
+    intro c hc
+    have := h c hc
+    simp only [Function.comp, decide_eq_true_eq, UInt8.lt_iff_toNat_lt, UInt8.toNat_ofNat']
+    show c.toNat % 256 < 128
+    omega
+  rw [if_pos hall, latin1_rt s (fun c hc => by have := h c hc; omega)]
+
+/-- US-ASCII on code points ≤ 127 (as body or query charset). -/
+def asciiAscii : AsciiCodec where
+  enc := latin1Enc
+  dec := decode .ascii
+  ok := fun c => c.toNat < 128
+  rt := fun s h => by simp [decode, ascii_rt s h]
+  enc_nil := rfl
+  enc_append := fun a b => by simp [latin1Enc]
   enc_ascii := fun c _ => rfl
 
 /-- `recode_path_qs`: a query string the client wrote as UTF-8 arrives as the text it encodes. -/
@@ -527,6 +550,15 @@ theorem C03_handle_cases (r : Req) :
       | none => left; exact ⟨rfl, by simp [hp]⟩
       | some bp => right; exact ⟨bp, rfl, by simp [hp]⟩
 
+/-- Parameter decoding refuses only with 404 (query string) or 400 (body) — never a 500 — and a
+    refusal means the handler was not called at all (`Outcome` has no third case). -/
+theorem C03_status_only_404_400 (r : Req) (c : Nat) (h : handle r = .status c) : c = 404 ∨ c = 400 := by
+  rcases C03_handle_cases r with ⟨_, h1⟩ | ⟨qp, _, ⟨_, h1⟩ | ⟨att, bytes, _, ⟨_, h1⟩ | ⟨bp, _, h1⟩⟩⟩
+  · rw [h1] at h; cases h; exact Or.inl rfl
+  · rw [h1] at h; cases h
+  · rw [h1] at h; cases h; exact Or.inr rfl
+  · rw [h1] at h; cases h
+
 /-- **C03_request_roundtrip.** The whole path: a client writes query pairs in charset `qe`
     (`request.query_string_encoding`, ASCII-compatible, raw non-ASCII characters as UTF-8) and body
     pairs in charset `cb`, the first attempted body charset; any styles, separators and split.
@@ -568,8 +600,9 @@ theorem C03_request_roundtrip_query_only (Cq : AsciiCodec) (qe : Charset) (hqe :
   simp only [recodeQS_utf8, hqe, hq.1]
 
 /-- `decode` instances the two theorems above apply to. -/
-example : decode .utf8 = utf8Ascii.dec ∧ decode .latin1 = latin1Ascii.dec ∧
-    decode .utf8 = utf8Codec.dec ∧ decode .latin1 = latin1Codec.dec := ⟨rfl, rfl, rfl, rfl⟩
+example : decode .utf8 = utf8Ascii.dec ∧ decode .latin1 = latin1Ascii.dec ∧ decode .ascii = asciiAscii.dec ∧
+    decode .utf8 = utf8Codec.dec ∧ decode .latin1 = latin1Codec.dec ∧
+    decode .utf16 = utf16Codec.dec ∧ decode .utf16le = utf16leCodec.dec := ⟨rfl, rfl, rfl, rfl, rfl, rfl, rfl⟩
 
 /-- `attempt_charsets`: a declared charset is tried first, UTF-8 remains as the fallback. -/
 theorem attemptCharsets_declared (d : Charset) :
